@@ -5,7 +5,7 @@ git -C /repo worktree remove --force $W 2>/dev/null
 git -C /repo worktree add -q --detach $W HEAD || exit 9
 cp /repo/spsdk/__version__.py $W/spsdk/__version__.py
 grep -v '^#' /verif/proposed_fixes/$n.diff > /tmp/tf_$n.diff
-(cd $W && git apply --recount /tmp/tf_$n.diff) || { echo "$n: DOES NOT APPLY"; git -C /repo worktree remove --force $W; exit 8; }
+(cd $W && (git apply /tmp/tf_$n.diff || git apply --recount /tmp/tf_$n.diff)) || { echo "$n: DOES NOT APPLY"; git -C /repo worktree remove --force $W; exit 8; }
 (cd $W && env -u SPSDK_VERIF PYTHONPATH=$W SPSDK_CACHE_FOLDER=/tmp/suite-try-$n-cache /venv/bin/python -m pytest -q -p no:cacheprovider --timeout=900 --continue-on-collection-errors -n 12 --junitxml=/tmp/suite-try-$n.xml > /tmp/suite-try-$n.log 2>&1)
 echo "$n: $(tail -1 /tmp/suite-try-$n.log)"; python3 /verif/tools/baseline_cmp.py /tmp/suite-try-$n.xml | head -8
 git -C /repo worktree remove --force $W; rm -rf /tmp/suite-try-$n-cache
